@@ -1031,20 +1031,34 @@ def run_case_files(ck, name: str, rows: list, mk, per: int = 400) -> list[int]:
 
 # --------------------------------------------------------------------------- known findings
 
+def _known_keys(ck) -> set[str]:
+    return {k["key"] for k in ck._known if k.get("status") == "known"}
+
+
 def _known_key(ck, case: dict, obs: dict, bad: list[str]) -> str | None:
-    """A failure is the known finding only if EVERY failed observation is a re-parse of simplify()'s text and
-    that text contains the construct named by the finding's site (Piecewise)."""
-    for k in ck._known:
-        if k.get("status") != "known":
-            continue
-        site = k.get("site", {})
-        if site.get("method") != "SymbolicDim.simplify":
-            continue
-        st = obs.get("simplify_text") or ""
-        if site.get("text_contains", "Piecewise") in st and all(b.split(":")[0] == "simplify_reparse" for b in bad) \
-                and obs.get("simplify_reparse", [""])[0] == "raise":
-            return k["key"]
-    return None
+    """Map a failing case to known finding key(s) ('+'-joined) by SITE, else None.
+      simplify-piecewise-text : every failed observation is a re-parse of simplify()'s text and that text
+                                contains Piecewise (SymbolicDim.simplify returns an unprintable form)
+      sympy-autoeval-<op>     : every minimal failing subtree is rooted at <op> and SymPy ALONE (same
+                                constructor calls, no ir-py code) gives the same wrong value
+    A failure that mixes a known site with anything else is not known."""
+    known = _known_keys(ck)
+    keys = []
+    rest = list(bad)
+    st = obs.get("simplify_text") or ""
+    if "simplify-piecewise-text" in known and "Piecewise" in st and obs.get("simplify_reparse", [""])[0] == "raise":
+        rest = [b for b in rest if b.split(":")[0] != "simplify_reparse"]
+        if len(rest) < len(bad):
+            keys.append("simplify-piecewise-text")
+    if rest:
+        attr = sympy_attribution(case, obs, rest)
+        if attr is None:
+            return None
+        ks = ["sympy-autoeval-" + o for o in attr[len("sympy-autoeval-"):].split("+")]
+        if not all(k in known for k in ks):
+            return None
+        keys += ks
+    return "+".join(keys) if keys else None
 
 
 def replay_known(ck) -> None:
@@ -1056,6 +1070,7 @@ def replay_known(ck) -> None:
         bad = oracle(case, obs)
         if bad and _known_key(ck, case, obs, bad) == k["key"]:
             ck.known_finding(k["key"], k["what"])
+            ck.hist("known_findings_replayed_on_implementation", k["key"])
         elif bad:
             ck.violation({"kind": "tree", "case": case, "failures": bad, "note": "known-finding witness fails differently"})
         else:
@@ -1198,6 +1213,34 @@ def _small_pow(m, b) -> bool:
         return False
 
 
+def _string_known(ck, it: dict, fail: dict) -> str | None:
+    """A wrong value of a dimension string is the known SymPy finding when SymPy alone, applied to the
+    constructor tree the parser requested (stub), gives the same wrong value, and the tree contains the
+    operator of a recorded sympy-autoeval finding."""
+    r = it.get("_stub")
+    o = fail.get("observed", {})
+    if not r or r[0] != "ok" or o.get("parse") != "ok":
+        return None
+    import sympy  # noqa: F401
+    b = it["bindings"]
+
+    def f():
+        e = sympy_build(r[1])
+        v = e.subs({s_: b[str(s_)] for s_ in e.free_symbols if str(s_) in b})
+        if v.is_number and v.is_integer:
+            return ["int", int(v)]
+        if v.is_Rational:
+            return ["frac", int(v.p), int(v.q)]
+        return ["other", str(v)]
+    alone = _try(lambda: _with_alarm(10, f))
+    if alone != o.get("value"):
+        return None
+    txt = json.dumps(r[1])
+    keys = [k for k, tag in (("sympy-autoeval-max", "BMax"), ("sympy-autoeval-min", "BMin"), ("sympy-autoeval-mod", "BMod"))
+            if tag in txt and k in _known_keys(ck)]
+    return "+".join(keys) if keys else None
+
+
 def check_strings(ck, items: list[dict], report) -> None:
     """items: {'text', 'bindings', optional 'toks','names' (grammar-generated), optional 'expect'}.
     (i) parser tie through the stub, (ii) string evaluation tie, (iii) oracle for grammar strings."""
@@ -1242,8 +1285,24 @@ def check_strings(ck, items: list[dict], report) -> None:
             elif got != want:
                 fail = {"text": text, "bindings": b, "expected": want, "observed": o,
                         "what": "dimension string does not evaluate to the recorded exact value"}
+        if fail is None and r[0] == "ok" and it.get("_obs", {}).get("parse") == "ok":
+            # every accepted string: SymPy's value of the requested constructor tree vs exact arithmetic
+            try:
+                want = qval(exact_m(r[1], b))
+                got = it["_obs"].get("value")
+                if got != want and got != ["timeout"]:
+                    fail = {"text": text, "bindings": b, "expected": want, "observed": it["_obs"],
+                            "what": "the value of an accepted dimension string differs from exact arithmetic on the "
+                                    "constructor tree its parse requested"}
+            except (Undefined, OverflowError):
+                pass
         if fail:
-            report(it, fail)
+            key = _string_known(ck, it, fail)
+            if key:
+                ck.hist("known_finding_hits", key)
+                eval_rows[:] = [r_ for r_ in eval_rows if r_[0] != text]
+            else:
+                report(it, fail)
     try:
         for i in run_case_files(ck, "parser", parser_rows, parser_case_file, per=500):
             text, r = parser_rows[i]
@@ -1277,13 +1336,16 @@ def check_trees(ck, cases: list[dict], report) -> None:
             ck.hist("simplify", "timeout (not judged)")
         bad = oracle(case, obs)
         key = _known_key(ck, case, obs, bad) if bad else None
+        in_coq = True
         if bad and key:
             ck.hist("known_finding_hits", key)
             obs = dict(obs)
             obs.pop("simplify_reparse", None)
+            if "sympy-autoeval" in key:
+                in_coq = False     # SymPy's value contradicts exact arithmetic here: the finding, not the model
         elif bad:
             report(case, obs, bad)
-        if obs.get("build") == ["ok"] and all(ord(c) < 128 for c in obs["text"]):
+        if in_coq and obs.get("build") == ["ok"] and all(ord(c) < 128 for c in obs["text"]):
             rows.append((case, obs))
             if ops_of(case["tree"]) & {"floordiv", "mod", "floor", "ceil", "trunc", "max", "min", "div"} \
                     and depth(case["tree"]) >= 2:
@@ -1414,6 +1476,9 @@ def search(ck) -> None:
             continue
         ck.count()
         if f:
+            it["_stub"] = stub_parse(it["text"])[0]
+            if _string_known(ck, it, f):
+                continue
             small = shrink_string(it["toks"], it["names"], it["bindings"])
             text = " ".join(t if isinstance(t, str) else str(t[1]) for t in small)
             f2 = string_failure(small, it["names"], it["bindings"], text=text) or f
